@@ -119,8 +119,8 @@ def row_columns(doc: docgen.Doc):
 class C12:
     PROPERTY = 'C12'
     TIERS = {
-        'quick': {'runs': 6000, 'wall_cap_s': 300, 'chunk': 40},
-        'thorough': {'runs': 130000, 'wall_cap_s': 1500, 'chunk': 50},
+        'quick': {'runs': 6000, 'wall_cap_s': 300, 'chunk': 40, 'opt_leg_runs': 300},
+        'thorough': {'runs': 130000, 'wall_cap_s': 1500, 'chunk': 50, 'opt_leg_runs': 1200},
     }
     RULE = ('75% doc runs: a docgen document (1-4 spines, <=25 rows, swarm features) with 0..4 cells replaced by malformed text '
             '(strict family: unlexable character adjacent to a token, truncated token, wrong order, bad chord; lexable-tail family: '
